@@ -168,6 +168,11 @@ class NixSourceCode:
     def rebuild(self) -> str:
         """Reassemble source with trailing trivia to keep file structure."""
         rebuilt = "".join(obj.rebuild() for obj in self.expressions)
+        if not self.contains_error:
+            # Blank lines at the very top never survive parsing; an edit that hands
+            # a blank line to the first expression (pruned let layer) must not
+            # emit one either, or the output would not be a fixed point.
+            rebuilt = rebuilt.lstrip("\n")
         if not self.trailing:
             return rebuilt
 
